@@ -775,13 +775,24 @@ def s_twins(rng, w, a, variant):
         empty = [rng.choice(cand)]
     regime = _neutral_regime(s1) if mode not in ("flip",) else None
     cmp_cop = _cop_of(s1)
-    if _swap(rng, cmp_cop, c1, c2 if "far" in mode or mode == "near" else c1):
+    if mode == "qtype-vacuous":
+        # the body must FAIL for the non-empty type to differ from the empty one: its literals (one polarity) are false
+        body = s1[2]
+        lits = [x for x in body[1:] if x[0] in ("pu", "pz", "not")]
+        regime = ("all" if lits[0][0] == "not" else "none") if lits else None
+        if ORDER is not None and (s1[1][2] in empty) != (ORDER == 1):
+            s1, s2 = s2, s1               # order 0: the quantifier over the non-empty type first, 1: the vacuous one first
+        elif ORDER is None and rng.random() < 0.5:
+            s1, s2 = s2, s1
+    elif _swap(rng, cmp_cop, c1, c2 if "far" in mode or mode == "near" else c1):
         s1, s2 = s2, s1
-    base = _and_body(a["pre"]) if rng.random() < 0.3 else ["and"]
+    # look-alikes that differ in meaning stand alone, so that they decide; the controls keep the generated precondition sometimes
+    harmless = mode in ("exact", "swapped", "near")
+    base = _and_body(a["pre"]) if harmless and rng.random() < 0.5 else ["and"]
     if ctx == "pre-root":
         a["pre"] = ["and"] + _insert_two(rng, base[1:], s1, s2)
     elif ctx in ("pre-nested-or", "pre-nested-and"):
-        extra = [_zlit(rng, w, scope)] if rng.random() < 0.2 else []
+        extra = [_zlit(rng, w, scope)] if harmless and rng.random() < 0.4 else []
         a["pre"] = base + [[ctx[11:]] + _insert_two(rng, extra, s1, s2)]
     elif ctx == "forall-body":
         a["pre"] = base + [["forall", [qv, "-", qty], [rng.choice(["and", "or"]), s1, s2]]]
@@ -836,7 +847,7 @@ def s_leaf_twins(rng, w, a, variant):
     s1, s2 = pair
     if _swap(rng, cop, c1, c2 if kind in ("num-far", "num-far4", "num-near") else c1):
         s1, s2 = s2, s1
-    base = _and_body(a["pre"]) if rng.random() < 0.3 else ["and"]
+    base = _and_body(a["pre"]) if kind in ("num-exact", "num-near", "lit-dup") and rng.random() < 0.5 else ["and"]
     if ctx == "pre-root":
         a["pre"] = ["and"] + _insert_two(rng, base[1:], s1, s2)
     elif ctx == "pre-nested-or":
@@ -1213,6 +1224,11 @@ for _where in ("pre", "pre-arith", "eff", "when"):
     SHAPES["long-numerals:%s" % _where] = (s_long_numerals, (_where,))
 for _k in ("shadow-pre", "shadow-forall-when", "empty-and", "empty-or", "empty-forall", "empty-when"):
     SHAPES["scoping:%s" % _k] = (s_shadow, (_k,))
+
+
+def differs(key):
+    """the shape plants two look-alike siblings whose MEANINGS differ (merging them would change the action)"""
+    return any(t in key for t in ("far", ":flip", ":eqflip", ":qtype", "lit-contra", "leaf-after-compound", "compound-after-leaf"))
 
 
 def shape(rng, w, key, order=None):
